@@ -569,11 +569,22 @@ def l9_counted_slots_are_released_on_every_exit(ctx):
     failed handshake, an early `return` - leaks one slot per such flow; once the bound's worth of them has accumulated the listener refuses
     everybody, for ever. Pairing rule on the task body that owns the decrement: from its entry, no return is reachable without passing a
     release (`fetch_sub` / `fetch_add` of a negative / `store`) of that counter."""
+    from .common import _moved_into_spawn
     prog = ctx.prog
     n = 0
     for b in prog.prod_bodies():
         rel = [blk for (blk, c, t) in b.calls() if c.method == "fetch_sub" and "Atomic" in ((c.self_s or "") + c.target)]
         if not rel:
+            continue
+        # only the body of a spawned task: the slot belongs to the task's lifetime (a helper or a Drop impl that decrements is not a task)
+        parent = prog.body(getattr(b, "parent", None) or "")
+        spawned = False
+        if parent is not None:
+            for blk_ in parent.rpo():
+                for s_ in parent.stmts(blk_):
+                    if s_["k"] == "assign" and s_["rv"]["k"] == "agg" and s_["rv"].get("def") == b.defp and not s_["p"][1] and _moved_into_spawn(parent, s_["p"][0]):
+                        spawned = True
+        if not spawned:
             continue
         n += 1
         rets = set(b.return_blocks())
